@@ -27,8 +27,9 @@ EffLim(c) == IF c.limit > 0 /\ c.limit <= c.fin.cnt + 1 THEN c.limit ELSE c.fin.
 
 St0(c) ==
     LET ig == InternGlobals(c.globals, 1, <<>>, <<>>)
-        s0 == InitState(ig.g, ig.heap, EffLim(c), c.dbg, c.kind = "script", c.names)
-    IN [s0 EXCEPT !.inc = c.inc, !.off = c.off]
+        il == InternGlobals(c.locals, 1, <<>>, ig.heap)        \* locals handed to evaluate_expression
+        s0 == InitState(ig.g, il.heap, EffLim(c), c.dbg, c.kind = "script", c.names)
+    IN [loc0 |-> il.g] @@ [s0 EXCEPT !.inc = c.inc, !.off = c.off]
 
 Init == /\ tid \in 1..NCases
         /\ pc = 1
@@ -57,7 +58,8 @@ FirstBad(log, from) ==
 SpecStatus(s, fin) == IF s.exc = "" THEN "done" ELSE s.exc
 
 GlobalsOK(s) ==
-    LET names == DOMAIN s.g \ Reserved IN
+    \* a global holding the library function of its own name is indistinguishable from the injected library
+    LET names == { n \in DOMAIN s.g \ Reserved : s.g[n] # LibFn(n) } IN
     /\ \A n \in names : n \in DOMAIN C.fin.globals /\ Matches(Extern(s.g[n], s.heap), C.fin.globals[n])
     /\ \A n \in DOMAIN C.fin.globals : n \in names
 
@@ -107,7 +109,7 @@ StepScript ==
              /\ UNCHANGED <<tid, status, ret, verdict>>
 
 StepExpr ==
-    LET r == Eval(C.expr, NoLoc, st, <<DefaultFuel, C.bi>>) IN
+    LET r == Eval(C.expr, IF C.hasLocals THEN [has |-> TRUE, m |-> st.loc0] ELSE NoLoc, st, <<DefaultFuel, C.bi>>) IN
     IF ~NewEventsOK(r.st.log, 0) THEN
         /\ verdict' = "REJECT" /\ status' = "rejected"
         /\ PrintT(<<"V", tid, "REJECT", "event", <<FirstBad(r.st.log, 0),
